@@ -8,6 +8,7 @@ import (
 	"crypto/sha512"
 	"fmt"
 	"math/rand"
+	"strings"
 	"time"
 
 	"verif/spec"
@@ -95,6 +96,18 @@ func c13Gen(r *rand.Rand, tier string) []spec.Case {
 			}
 		}
 	}
+	// paths on which lexical and kernel resolution differ, or that go through a symlink: the file that is
+	// hashed must be the file that is executed
+	for _, h := range hashes {
+		for _, pk := range []string{"dotdot-approved", "dotdot-tampered", "symlink-approved", "symlink-tampered"} {
+			for k := 0; k < 2; k++ {
+				seed := int64(r.Intn(1000))
+				f := file{"script", pick(r, []int{60, 64, 65, 200})}
+				sum := c13Digest(h, spec.C13File(f.kind, f.size, seed))
+				out = append(out, spec.Case{Kind: "path", P: spec.MustJSON(spec.C13Case{FileKind: f.kind, FileSize: f.size, FileSeed: seed, Hash: h, Variant: "path:" + pk, Checksum: sum, PathKind: pk})})
+			}
+		}
+	}
 	// a missing binary
 	out = append(out, spec.Case{Kind: "missing", P: spec.MustJSON(spec.C13Case{FileKind: "script", FileSize: 64, Hash: "sha256", Variant: "missing", Checksum: make([]byte, 32), Missing: true})})
 	return out
@@ -157,6 +170,18 @@ func c13Judge(c spec.Case, evs []spec.Event, d *Death) CaseResult {
 		return res
 	}
 	want := c13Digest(p.Hash, content)
+	if p.PathKind != "" {
+		// the file the kernel runs for this path is the approved one or the tampered one; the host hashed it
+		// through the same path
+		want = c13Digest(p.Hash, content)
+		if strings.HasSuffix(p.PathKind, "-tampered") {
+			want = c13Digest(p.Hash, append(append([]byte(nil), content...), '#', 'x'))
+		}
+		if !bytes.Equal(want, o.FileSum) {
+			return CaseResult{Verdict: "inconclusive", Inconcl: "the path does not resolve to the expected file in this sandbox", Class: res.Class}
+		}
+		res.Counters["path_cases"]++
+	}
 	if want != nil && !bytes.Equal(want, o.FileSum) {
 		return CaseResult{Verdict: "inconclusive", Inconcl: "host and driver disagree on the file digest"}
 	}
@@ -214,7 +239,7 @@ func init() {
 		ID: "C13", Level: "exploration", Race: true, TestName: "TestC13",
 		Gen: c13Gen, Batch: 300, Children: 6, PerCase: 500 * time.Millisecond, Base: 90 * time.Second,
 		Judge: c13Judge, Finish: c13Finish,
-		Rule:        "cases = (file content: executable scripts of several sizes around the 64-byte block boundary and non-executable junk incl. empty; hash function; checksum variant: exact, every single-bit flip [exhaustive for the first file, sampled elsewhere in quick, exhaustive everywhere in thorough], every proper prefix, suffixes, 1-8 trailing bytes (random / zero), doubled, leading byte, empty, nil, zeros, digest of another file, nil Hash, missing binary) plus histories of 2-4 launches of one path that share one SecureConfig value while the file is atomically replaced (good/tampered) in between, with and without the caller resetting the hash. The script writes a launch marker as its first action; the oracle computes the digest independently and requires launched <=> checksum == H(file) plus the corresponding error. Class = variant/hash/file",
+		Rule:        "cases = (file content: executable scripts of several sizes around the 64-byte block boundary and non-executable junk incl. empty; hash function; checksum variant: exact, every single-bit flip [exhaustive for the first file, sampled elsewhere in quick, exhaustive everywhere in thorough], every proper prefix, suffixes, 1-8 trailing bytes (random / zero), doubled, leading byte, empty, nil, zeros, digest of another file, nil Hash, missing binary) plus histories of 2-4 launches of one path that share one SecureConfig value while the file is atomically replaced (good/tampered) in between, with and without the caller resetting the hash; plus command paths on which lexical and kernel resolution differ (<dir>/a/link/../bin through a directory symlink) or that are symlinks, with the approved and a tampered file on either side. The script writes a launch marker as its first action; the oracle computes the digest independently and requires launched <=> checksum == H(file) plus the corresponding error. Class = variant/hash/file",
 		Assumptions: []string{"'the corresponding error' is matched by errors.Is or message containment (Start wraps two of the sentinels with %s)", "for non-executable junk files 'executed' means exec was attempted (Cmd.Process set or a non-checksum error)"},
 	})
 }
